@@ -220,6 +220,65 @@ pub fn no_panic<T>(what: &str, f: impl FnOnce() -> T) -> Result<T, Fail> {
     }
 }
 
+//------------ watchdog ------------------------------------------------------
+
+/// One slot per running shard: a progress counter and a way to render the
+/// case that is currently executing.
+pub struct WatchSlot {
+    pub what: String,
+    pub progress: AtomicU64,
+    pub render: Box<dyn Fn() -> Option<Value> + Send + Sync>,
+    pub done: AtomicBool,
+}
+
+static WATCH: Mutex<Vec<Arc<WatchSlot>>> = Mutex::new(Vec::new());
+
+pub fn watch_register(slot: Arc<WatchSlot>) {
+    WATCH.lock().unwrap().push(slot);
+}
+
+/// Starts the watchdog thread: if some shard makes no progress for
+/// `VERIF_WATCHDOG` seconds (default 180) the case it is executing is saved
+/// and the process exits with status 2 (inconclusive, never a violation).
+pub fn start_watchdog(property: &'static str) {
+    let limit: u64 = std::env::var("VERIF_WATCHDOG").ok().and_then(|s| s.parse().ok()).unwrap_or(180);
+    std::thread::spawn(move || {
+        let mut seen: Vec<(usize, u64, Instant)> = Vec::new();
+        loop {
+            std::thread::sleep(std::time::Duration::from_secs(2));
+            let slots: Vec<Arc<WatchSlot>> = WATCH.lock().unwrap().clone();
+            for (i, slot) in slots.iter().enumerate() {
+                if slot.done.load(Ordering::Relaxed) {
+                    continue;
+                }
+                let p = slot.progress.load(Ordering::Relaxed);
+                match seen.iter_mut().find(|e| e.0 == i) {
+                    None => seen.push((i, p, Instant::now())),
+                    Some(e) => {
+                        if e.1 != p {
+                            e.1 = p;
+                            e.2 = Instant::now();
+                        } else if e.2.elapsed().as_secs() >= limit {
+                            let dir = format!("{}/failures/{}", verif_dir(), property);
+                            let _ = std::fs::create_dir_all(&dir);
+                            let path = format!("{}/hang-{}.json", dir, slot.what.replace('/', "-"));
+                            let case = (slot.render)().unwrap_or(Value::Null);
+                            let sub = slot.what.split('/').next().unwrap_or("").to_string();
+                            let _ = std::fs::write(&path, serde_json::to_string_pretty(&json!({
+                                "property": property, "sub": sub, "case": case,
+                                "message": format!("no progress for {} s", limit),
+                            })).unwrap());
+                            println!("INCONCLUSIVE property={} watchdog: {} made no progress for {} s; case saved to {}",
+                                property, slot.what, limit, path);
+                            std::process::exit(2);
+                        }
+                    }
+                }
+            }
+        }
+    });
+}
+
 //------------ known findings ------------------------------------------------
 
 #[derive(Clone, Debug, Default)]
@@ -422,7 +481,7 @@ pub struct PropSub<C> {
 
 impl<C> PropSub<C>
 where
-    C: std::fmt::Debug + Clone + Serialize + DeserializeOwned + 'static,
+    C: std::fmt::Debug + Clone + Serialize + DeserializeOwned + Send + 'static,
 {
     pub fn boxed(self) -> Box<dyn SubCheck> {
         Box::new(self)
@@ -450,10 +509,25 @@ where
         let mut runner = TestRunner::new_with_rng(config.clone(), rng);
         let strat = (self.strategy)(ctx.tier);
         let st = RefCell::new(ShardState::new());
+        let current: Arc<Mutex<Option<C>>> = Arc::new(Mutex::new(None));
+        let slot = {
+            let current = current.clone();
+            Arc::new(WatchSlot {
+                what: format!("{}/shard{}", self.name, shard),
+                progress: AtomicU64::new(0),
+                render: Box::new(move || {
+                    current.try_lock().ok().and_then(|c| c.as_ref().map(|c| serde_json::to_value(c).unwrap_or(Value::Null)))
+                }),
+                done: AtomicBool::new(false),
+            })
+        };
+        watch_register(slot.clone());
         let mut done = 0u64;
         while done < cases && !stop.load(Ordering::Relaxed) {
             let res = runner.run(&strat, |case: C| {
                 let mut obs = Obs::default();
+                *current.lock().unwrap() = Some(case.clone());
+                slot.progress.fetch_add(1, Ordering::Relaxed);
                 let r = catch(|| (self.run)(&case, &mut obs));
                 let mut s = st.borrow_mut();
                 if !s.failed {
@@ -502,13 +576,14 @@ where
                 }
             }
         }
+        slot.done.store(true, Ordering::Relaxed);
         st.into_inner().rep
     }
 }
 
 impl<C> SubCheck for PropSub<C>
 where
-    C: std::fmt::Debug + Clone + Serialize + DeserializeOwned + 'static,
+    C: std::fmt::Debug + Clone + Serialize + DeserializeOwned + Send + 'static,
 {
     fn name(&self) -> &'static str {
         self.name
@@ -603,6 +678,21 @@ where
                     .stack_size(64 << 20)
                     .spawn_scoped(sc, move || {
                         let mut st = ShardState::new();
+                        let current: Arc<Mutex<Option<C>>> = Arc::new(Mutex::new(None));
+                        let slot = {
+                            let current = current.clone();
+                            Arc::new(WatchSlot {
+                                what: format!("{}/enum", self.name),
+                                progress: AtomicU64::new(0),
+                                render: Box::new(move || {
+                                    current.try_lock().ok().and_then(|c| {
+                                        c.as_ref().map(|c| serde_json::to_value(c).unwrap_or(Value::Null))
+                                    })
+                                }),
+                                done: AtomicBool::new(false),
+                            })
+                        };
+                        watch_register(slot.clone());
                         'outer: loop {
                             let start = next.fetch_add(chunk, Ordering::Relaxed);
                             if start >= total || stop.load(Ordering::Relaxed) {
@@ -611,6 +701,8 @@ where
                             for idx in start..(start + chunk).min(total) {
                                 let case = (self.make)(ctx.tier, ctx.seed, idx);
                                 let mut obs = Obs::default();
+                                *current.lock().unwrap() = Some(case.clone());
+                                slot.progress.fetch_add(1, Ordering::Relaxed);
                                 let r = catch(|| (self.run)(&case, &mut obs));
                                 st.record(&case, &obs);
                                 match r {
@@ -635,6 +727,7 @@ where
                                 }
                             }
                         }
+                        slot.done.store(true, Ordering::Relaxed);
                         merged.lock().unwrap().merge(st.rep);
                     })
                     .unwrap();
@@ -706,6 +799,7 @@ pub fn run_property(prop: Property, tier: Tier) -> Outcome {
     let dir = verif_dir();
     let known = Known::load(&format!("{}/known_findings.json", dir), prop.id);
     let ctx = RunCtx { tier, seed, threads, scale, property: prop.id, known };
+    start_watchdog(prop.id);
 
     let mut violations: Vec<(String, String)> = Vec::new(); // (replay path, msg)
     let mut known_hits: BTreeMap<String, u64> = BTreeMap::new();
